@@ -75,7 +75,7 @@ def run_case(case):
     r = Result()
     reqs = case["reqs"]
     table = [q["app"] for q in reqs]
-    rig = memhttp.Rig(app=make_app(table), bs=64)
+    rig = memhttp.Rig(app=make_app(table), bs=64, tymeout=100000.0)   # idle timeouts are C12's business, keep them out of reach
     port = rig.connect()
     rig.cycle()
     ss = rig.ssock(port)
